@@ -2,7 +2,7 @@ import Qryn.Ingest.Faults
 /-! Lemmas for C05 about `Qryn.Ingest.Faults`: the parser goroutine closes its channel exactly once, the
     handler's waiting logic terminates when every push resolves, good portions keep the shared columns
     rectangular, and the decoders of the fixed code only emit good portions. -/
-namespace Qryn.Ingest
+namespace Qryn.IngestFaults
 
 /-! ### the parser goroutine -/
 
@@ -873,4 +873,4 @@ theorem routePlan_good (fx : Fixes) (h1 : fx.emptyFill = true) (h2 : fx.idCheck 
       (try contradiction) <;> (try cases hi)
     all_goals exact profileItems_one_onProfile _ _ _ _ _
 
-end Qryn.Ingest
+end Qryn.IngestFaults
